@@ -230,6 +230,57 @@ class Fld:
         return R
 
 
+class Tw:
+    """generic tower level: prime field (k = 1) or degree-k extension (k in {2,3}) of another Tw by X^k - nr;
+    elements are ints (prime level) or k-tuples of base elements; mirrors QuadOps / CubicOps of Base/Field.v"""
+    def __init__(self, p=None, base=None, k=1, nr=None):
+        self.base, self.k = base, k
+        self.p = p if base is None else base.p
+        self.deg = 1 if base is None else k * base.deg
+        self.nr = None if base is None else base.el(nr)
+
+    def el(self, l):
+        l = list(l)
+        if self.base is None:
+            return (l[0] if l else 0) % self.p
+        d = self.base.deg
+        return tuple(self.base.el(l[i * d:(i + 1) * d]) for i in range(self.k))
+
+    def coords(self, a):
+        if self.base is None:
+            return [a]
+        return [c for x in a for c in self.base.coords(x)]
+
+    def zero(self): return self.el([0])
+    def one(self): return self.el([1])
+
+    def add(self, a, b):
+        if self.base is None:
+            return (a + b) % self.p
+        return tuple(self.base.add(x, y) for x, y in zip(a, b))
+
+    def mul(self, a, b):
+        B = self.base
+        if B is None:
+            return a * b % self.p
+        m, ad, n = B.mul, B.add, self.nr
+        if self.k == 2:
+            return (ad(m(a[0], b[0]), m(n, m(a[1], b[1]))), ad(m(a[0], b[1]), m(a[1], b[0])))
+        return (ad(m(a[0], b[0]), m(n, ad(m(a[1], b[2]), m(a[2], b[1])))),
+                ad(ad(m(a[0], b[1]), m(a[1], b[0])), m(n, m(a[2], b[2]))),
+                ad(ad(m(a[0], b[2]), m(a[1], b[1])), m(a[2], b[0])))
+
+    def pow(self, a, e):
+        assert e >= 0
+        r, b = self.one(), a
+        while e:
+            if e & 1:
+                r = self.mul(r, b)
+            b = self.mul(b, b)
+            e >>= 1
+        return r
+
+
 # ------------------------------------------------------------------ facts
 class Fact:
     """one defining equation: `coq` is a boolean Gallina term (over Dump_<crate> names) that must
@@ -311,6 +362,15 @@ def build(recs):
             return Fld(pb['MODULUS'], 3, b['NONRESIDUE'][0]), '(B3 %s_MODULUS %s_BETA)' % (b['base'], base)
         raise KeyError(base)
 
+    def tower_of(crate, name):
+        """(generic python tower, coq dictionary term) of ANY registered level (prime, Fp2, Fp3, Fp4, Fp6, Fp12)"""
+        b = by[(crate, name)]
+        if b['kind'] == 'prime':
+            return Tw(p=b['MODULUS']), '(B1 %s_MODULUS)' % name
+        bt, bc = tower_of(crate, b['base'])
+        k = 3 if b['kind'] in ('fp3', 'fp6_3over2') else 2
+        return Tw(base=bt, k=k, nr=b['NONRESIDUE']), '(%s %s %s_NONRESIDUE)' % ('BC' if k == 3 else 'BQ', bc, name)
+
     for r in recs:
         k, c, n = r['kind'], r['crate'], r['name']
         if k == 'id':
@@ -319,6 +379,8 @@ def build(recs):
             prime_facts(r, D, F)
         elif k in ('fp2', 'fp3', 'fp4', 'fp6_2over3', 'fp6_3over2', 'fp12'):
             tower_facts(r, by, D, F, fld_of)
+            if 'FFT_GENERATOR' in r:
+                fft_ext_facts(r, by, D, F, tower_of)
         elif k == 'sw':
             sw_facts(r, by, D, F, fld_of)
         elif k == 'te':
@@ -584,6 +646,61 @@ def tower_facts(r, by, D, F, fld_of):
           lambda: [('Fp12::NONRESIDUE = v (the generator of Fp6)', nr, [0, 0, 1, 0, 0, 0])])
         frob('FROBENIUS_COEFF_FP12_C1', 'frob_c1', f2, f2c, b6['NONRESIDUE'], base + '_NONRESIDUE', 6, 1, c1, nm('FROB_C1'))
         nonres('NONRESIDUE', 'nonresidue', f2, f2c, nm('FROB_C1'), c1, 6)
+
+
+def fft_ext_facts(r, by, D, F, tower_of):
+    """FftField constants of an extension field (read through the FftField impl of the extension type): each is the
+    embedding of the base-prime-field constant, Option-ness as in the base field, exact orders in the extension"""
+    c, n = r['crate'], r['name']
+    nm = lambda key: '%s_%s' % (n, key)
+    pn = base_prime(by, c, n)
+    b0 = by[(c, pn)]
+    pnm = lambda key: '%s_%s' % (pn, key)
+    deg = r['DEGREE']
+    tw, twc = tower_of(c, n)
+    opt = lambda v: [] if v is None else [v]
+    g, s, root = r['FFT_GENERATOR'], r['FFT_TWO_ADICITY'], r['FFT_TWO_ADIC_ROOT_OF_UNITY']
+    sb, sk, lw = r['FFT_SMALL_SUBGROUP_BASE'], r['FFT_SMALL_SUBGROUP_BASE_ADICITY'], r['FFT_LARGE_SUBGROUP_ROOT_OF_UNITY']
+    D(c, nm('FFT_GENERATOR'), 'list Z', zl(g))
+    D(c, nm('FFT_TWO_ADICITY'), 'Z', zc(s))
+    D(c, nm('FFT_ROOT'), 'list Z', zl(root))
+    D(c, nm('FFT_SMALL_SUBGROUP_BASE'), 'list Z', zl(opt(sb)))
+    D(c, nm('FFT_SMALL_SUBGROUP_BASE_ADICITY'), 'list Z', zl(opt(sk)))
+    D(c, nm('FFT_LARGE_ROOT'), 'list (list Z)', zll(opt(lw)))
+    emb = lambda v: [v] + [0] * (deg - 1)
+    F(c, n, 'FftField::GENERATOR,TWO_ADICITY,TWO_ADIC_ROOT_OF_UNITY', 'fft_embed',
+      'embeds_ok %s %s %s && (%s =? %s) && embeds_ok %s %s %s' % (nm('FFT_GENERATOR'), pnm('GENERATOR'), nm('DEGREE'), nm('FFT_TWO_ADICITY'),
+                                                                 pnm('TWO_ADICITY'), nm('FFT_ROOT'), pnm('TWO_ADIC_ROOT_OF_UNITY'), nm('DEGREE')),
+      lambda: [('GENERATOR = (base-prime-field GENERATOR, 0, ..)', g, emb(b0['GENERATOR'])),
+               ('TWO_ADICITY = base-prime-field TWO_ADICITY', s, b0['TWO_ADICITY']),
+               ('TWO_ADIC_ROOT_OF_UNITY = (base-prime-field TWO_ADIC_ROOT_OF_UNITY, 0, ..)', root, emb(b0['TWO_ADIC_ROOT_OF_UNITY']))])
+    F(c, n, 'FftField::TWO_ADIC_ROOT_OF_UNITY', 'fft_root_order', 'fft_root_ok %s %s %s' % (twc, nm('FFT_ROOT'), nm('FFT_TWO_ADICITY')),
+      lambda: [('TWO_ADICITY > 0', s > 0, True),
+               ('root^(2^s) = 1 in the extension', tw.coords(tw.pow(tw.el(root), 1 << s)), tw.coords(tw.one())),
+               ('root^(2^(s-1)) = -1 in the extension (order exactly 2^s)', tw.coords(tw.pow(tw.el(root), 1 << max(s - 1, 0))), tw.coords(tw.el([-1])))])
+    bsb, bsk, blw = b0['SMALL_SUBGROUP_BASE'], b0['SMALL_SUBGROUP_BASE_ADICITY'], b0['LARGE_SUBGROUP_ROOT_OF_UNITY']
+    have = bsb is not None and bsk is not None and blw is not None
+    F(c, n, 'FftField::SMALL_SUBGROUP_BASE,SMALL_SUBGROUP_BASE_ADICITY,LARGE_SUBGROUP_ROOT_OF_UNITY', 'fft_small_subgroup',
+      'lists_eqb %s %s && lists_eqb %s %s && opt_embeds_ok %s %s %s' % (
+          nm('FFT_SMALL_SUBGROUP_BASE'), '[%s]' % pnm('SMALL_SUBGROUP_BASE') if have else zl(opt(bsb)),
+          nm('FFT_SMALL_SUBGROUP_BASE_ADICITY'), '[%s]' % pnm('SMALL_SUBGROUP_BASE_ADICITY') if have else zl(opt(bsk)),
+          nm('FFT_LARGE_ROOT'), '[%s]' % pnm('LARGE_SUBGROUP_ROOT_OF_UNITY') if have else zl(opt(blw)), nm('DEGREE')),
+      lambda: [('SMALL_SUBGROUP_BASE = that of the base prime field (same Option-ness)', sb, bsb),
+               ('SMALL_SUBGROUP_BASE_ADICITY = that of the base prime field (same Option-ness)', sk, bsk),
+               ('LARGE_SUBGROUP_ROOT_OF_UNITY = (base-prime-field LARGE_SUBGROUP_ROOT_OF_UNITY, 0, ..) (same Option-ness)',
+                lw, None if blw is None else emb(blw))])
+    if lw is not None and sb is not None and sk is not None:
+        nn = (1 << s) * sb ** sk
+        F(c, n, 'FftField::LARGE_SUBGROUP_ROOT_OF_UNITY', 'fft_large_order',
+          'fft_large_ok %s (nth 0 %s []) %s (nth 0 %s 0) (nth 0 %s 0)' % (twc, nm('FFT_LARGE_ROOT'), nm('FFT_TWO_ADICITY'),
+                                                                          nm('FFT_SMALL_SUBGROUP_BASE'), nm('FFT_SMALL_SUBGROUP_BASE_ADICITY')),
+          lambda: [('s > 0, b > 1, k > 0', (s > 0, sb > 1, sk > 0), (True, True, True)),
+                   ('w^n = 1 in the extension, n = 2^s b^k', tw.coords(tw.pow(tw.el(lw), nn)), tw.coords(tw.one())),
+                   ('w^(n/2) != 1 in the extension', tw.pow(tw.el(lw), nn // 2) != tw.one(), True),
+                   ('w^(n/b) != 1 in the extension (order exactly 2^s b^k)', tw.pow(tw.el(lw), nn // sb) != tw.one(), True)])
+    elif lw is not None:
+        F(c, n, 'FftField::LARGE_SUBGROUP_ROOT_OF_UNITY', 'fft_large_order', 'false',
+          lambda: [('LARGE_SUBGROUP_ROOT_OF_UNITY present without SMALL_SUBGROUP_BASE / _ADICITY', (sb, sk), 'both present')])
 
 
 def curve_common(r, by, D, F, fld_of):
